@@ -55,6 +55,9 @@ def id_pairs_strategy():
             outs.append(f"{p}__{comp}")
             outs.append(f"{p}__{comp}_x")
             outs.append(f"{p}__{comp}_message_queue")
+        # ids equal to / extending the REAL storage prefix of each component of a (whatever tag the component uses)
+        for cp in table_names(a):
+            outs.extend([cp, cp + "_archive", cp + "-2", cp + "_x", cp + "x"])
         # wildcard-shaped: every '_' of the prefix is a LIKE wildcard
         for i, ch in enumerate(p):
             if ch == "_" and i < 12:
